@@ -79,6 +79,8 @@ def _mk() -> List[Entry]:
     add("lbf-6x2", "LevelBasedForaging", lambda time_limit=8, **k: E.LevelBasedForaging(generator=LBFGen(grid_size=6, num_agents=2, num_food=2, fov=2), time_limit=time_limit, **k), time_limit=8, multi=True, trunc_ok=True)
     add("lbf-grid", "LevelBasedForaging", lambda time_limit=6, **k: E.LevelBasedForaging(generator=LBFGen(grid_size=7, num_agents=3, num_food=2, fov=7), time_limit=time_limit, grid_observation=True, **k), time_limit=6, multi=True, trunc_ok=True)
     add("maze-5x7", "Maze", lambda time_limit=9, **k: E.Maze(generator=MZGen(num_rows=5, num_cols=7), time_limit=time_limit, **k), time_limit=9)
+    add("maze-none-3x5", "Maze", lambda time_limit=None, **k: E.Maze(generator=MZGen(num_rows=3, num_cols=5), time_limit=time_limit, **k), time_limit=None, default_limit=15)
+    add("cleaner-none-3x6", "Cleaner", lambda time_limit=None, **k: E.Cleaner(generator=CLGen(num_rows=3, num_cols=6, num_agents=1), time_limit=time_limit, **k), time_limit=None, default_limit=18)
     add("maze-none", "Maze", lambda time_limit=None, **k: E.Maze(generator=MZGen(num_rows=4, num_cols=4), time_limit=time_limit, **k), time_limit=None, default_limit=16)
     add("mmst-small", "MMST", lambda time_limit=9, **k: E.MMST(generator=MMGen(num_nodes=12, num_edges=18, max_degree=5, num_agents=2, num_nodes_per_agent=3, max_step=time_limit), time_limit=time_limit, **k), time_limit=9, multi=True, trunc_ok=True)
     add("multicvrp-6x2", "MultiCVRP", lambda **k: E.MultiCVRP(generator=MCGen(num_customers=6, num_vehicles=2), **k))
